@@ -16,15 +16,18 @@ EXTENDS TraceLib, FlowGraphP
 
 C0 == TraceLog[1]
 VARIABLES now, lo, hi, charged, admitted, fwlast, inflight, deadline, cqlast,
+          rmode, rA, rAF, rranges, rB, rcnt, rlast,
           l, cur, pos, seen
 
 TxIds == {TraceLog[i].id : i \in {j \in 2..TraceLen : TraceLog[j].ev = "tx"}}
+SqIds == {TraceLog[i].sq : i \in {j \in 2..TraceLen : TraceLog[j].ev = "tx"}}
 
-G == INSTANCE GatewayP WITH TxIds <- TxIds, Cfg <- C0.cfg, QIds <- DOMAIN C0.QKind, QKind <- C0.QKind, QMax <- C0.QMax, QW <- C0.QW,
+G == INSTANCE GatewayP WITH TxIds <- TxIds, SqIds <- SqIds, StRange <- C0.StRange, RetryA <- C0.RetryA, Cfg <- C0.cfg, QIds <- DOMAIN C0.QKind, QKind <- C0.QKind, QMax <- C0.QMax, QW <- C0.QW,
                             LimQ <- C0.LimQ, GenStatus <- C0.GenStatus, SetH <- C0.SetH
 
-gvars == <<now, lo, hi, charged, admitted, fwlast, inflight, deadline, cqlast, l, cur, pos, seen>>
+gvars == <<now, lo, hi, charged, admitted, fwlast, inflight, deadline, cqlast, rmode, rA, rAF, rranges, rB, rcnt, rlast, l, cur, pos, seen>>
 qstate == <<lo, hi, charged, admitted, fwlast, inflight, deadline, cqlast>>
+rvars == <<rmode, rA, rAF, rranges, rB, rcnt, rlast>>
 
 Ev == TraceLog[l + 1]
 Idle == pos = 0
@@ -37,6 +40,7 @@ TInit ==
     /\ charged = [q \in G!Fixed |-> [g \in G!Groups |-> 0]] /\ admitted = [q \in G!Fixed |-> [g \in G!Groups |-> 0]]
     /\ fwlast = [ev |-> "init"]
     /\ inflight = [q \in G!Conc |-> {}] /\ deadline = [q \in G!Conc |-> [t \in TxIds |-> 0]] /\ cqlast = [ev |-> "init"]
+    /\ G!RetryInit
     /\ l = 1 /\ cur = NoTx /\ pos = 0 /\ seen = {}
 
 TReset ==
@@ -46,9 +50,10 @@ TReset ==
     /\ charged' = [q \in G!Fixed |-> [g \in G!Groups |-> 0]] /\ admitted' = [q \in G!Fixed |-> [g \in G!Groups |-> 0]]
     /\ fwlast' = [ev |-> "reset"]
     /\ inflight' = [q \in G!Conc |-> {}] /\ deadline' = [q \in G!Conc |-> [t \in TxIds |-> 0]] /\ cqlast' = [ev |-> "reset"]
+    /\ G!RetryReset
     /\ UNCHANGED <<cur, pos, seen>>
 
-TAdv == Consume("adv") /\ now' = now + Ev.d /\ UNCHANGED <<qstate, cur, pos, seen>>
+TAdv == Consume("adv") /\ now' = now + Ev.d /\ G!RetryAdv /\ UNCHANGED <<qstate, cur, pos, seen>>
 
 \* the walk of one user flow within a request transaction (C04).  The flow that answered the request is judged with
 \* the resume rule; another selected flow runs its request side completely or - when an earlier flow answered - not at
@@ -75,6 +80,7 @@ ReqJudgement(e) ==
         ranq == G!UserFlowsDir(e.seq, "req") \cup G!SetOf(e.inv)
         rans == G!UserFlowsDir(e.seq, "res")
         sysran == {e.seq[i].q : i \in {j \in 1..Len(e.seq) : G!IsSysInc(e.seq[j])}}
+        decran == {e.seq[i].q : i \in {j \in 1..Len(e.seq) : e.seq[j].sys = "dec"}}
     IN
     IF e.outcome = "panic" THEN "engine-panicked"
     ELSE IF ~(ranq \cup rans \subseteq G!FlowNames) THEN "unknown-flow-ran"
@@ -89,11 +95,16 @@ ReqJudgement(e) ==
     ELSE IF \E q \in sysran : q \notin DOMAIN C0.QKind \/ G!QuotaV(q, x) = "no" THEN "quota-system-flow-ran-although-the-quota-filter-does-not-match"
     ELSE IF e.outcome = "ok" /\ \E q \in DOMAIN C0.QKind : G!QuotaV(q, x) = "yes" /\ q \notin sysran
          THEN "quota-system-flow-did-not-run"
+    \* an answered request passes the response side: the releasing system flow of every concurrency quota whose filter accepts it runs
+    ELSE IF e.outcome = "ok" /\ G!AnsweredEarly(e.seq) /\ \E q \in G!Conc : G!QuotaV(q, xr) = "yes" /\ q \notin decran
+         THEN "quota-releasing-system-flow-did-not-run"
+    ELSE IF \E q \in decran : q \notin G!Conc \/ G!QuotaV(q, xr) = "no" THEN "quota-releasing-system-flow-ran-although-the-quota-filter-does-not-match"
     ELSE IF e.outcome = "ok" /\ e.status # G!ExpectedStatus(e.seq) THEN "answer-is-not-the-first-early-response"
     ELSE IF e.outcome = "ok" /\ e.acts # G!FlatActs(e.seq) THEN "recorded-actions-are-not-those-of-the-processor-executions"
     ELSE IF e.outcome = "ok" /\ \E i \in 1..Len(e.seq) : ~G!ProcActsOK(e, i) THEN "processor-handed-back-an-action-its-configuration-does-not-explain"
     ELSE IF e.outcome = "ok" /\ ~G!A!ReqOK(e.acts, e.out) THEN "answer-is-not-the-combination-of-the-actions(C07)"
     ELSE IF e.outcome = "ok" /\ ~G!ReqAnswerOK(e) THEN "answer-does-not-carry-what-the-executed-processors-are-configured-to-do"
+    ELSE IF ~G!RetryAccepted(e) THEN "retry-not-permitted-by-the-configured-attempts(C17)"
     ELSE "ok"
 
 \* the line of a request transaction is consumed when its last step is taken (TFinish): the high-water mark of l then always
@@ -102,6 +113,7 @@ TBeginReq ==
     /\ Idle /\ l < TraceLen /\ Ev.ev = "tx" /\ Ev.dir = "req"
     /\ LET v == ReqJudgement(Ev) IN IF v = "ok" THEN TRUE ELSE PrintT(<<"REJECT", l + 1, Ev.id, v>>) /\ FALSE
     /\ cur' = Ev /\ pos' = 1 /\ seen' = {}
+    /\ G!RetryStep(Ev)
     /\ UNCHANGED <<now, qstate, l>>
 
 \* ---- one processor execution of the current request transaction
@@ -114,7 +126,7 @@ Again(q) == q \in seen /\ q \in G!Conc
 TSkip ==
     /\ pos > 0 /\ pos <= Len(cur.seq)
     /\ (G!QuotaOf(Step) = "" \/ Again(G!QuotaOf(Step)))
-    /\ pos' = pos + 1 /\ UNCHANGED <<now, qstate, l, cur, seen>>
+    /\ pos' = pos + 1 /\ UNCHANGED <<now, qstate, l, cur, seen, rvars>>
 
 TQuota ==
     /\ pos > 0 /\ pos <= Len(cur.seq)
@@ -129,12 +141,12 @@ TQuota ==
                                        IF out = "refuse" THEN "refuse" ELSE IF G!AnsweredEarly(cur.seq) THEN "early" ELSE "admit", "seq")
                        /\ UNCHANGED <<lo, hi, charged, admitted, fwlast>>
           /\ seen' = seen \cup {q}
-    /\ pos' = pos + 1 /\ UNCHANGED <<l, cur>>
+    /\ pos' = pos + 1 /\ UNCHANGED <<l, cur, rvars>>
 
 TFinish ==
     /\ pos > 0 /\ pos > Len(cur.seq)
     /\ pos' = 0 /\ cur' = NoTx /\ seen' = {} /\ l' = l + 1
-    /\ UNCHANGED <<now, qstate>>
+    /\ UNCHANGED <<now, qstate, rvars>>
 
 \* ---- responses and proxy errors give the slots back
 \* the flows whose filter accepts the response and that have something to run on the response side must run; a flow whose
@@ -143,6 +155,7 @@ ResJudgement(e) ==
     LET x == G!TxnOf(e.x)
         ran == G!UserFlowsIn(e.seq)
         HasWork(f) == WellFormed(C0.cfg, f) /\ Len(Entry(C0.cfg, FlowOf(C0.cfg, f), "res")) > 0
+        decran == {e.seq[i].q : i \in {j \in 1..Len(e.seq) : e.seq[j].sys = "dec"}}
     IN
     IF e.outcome = "panic" THEN "engine-panicked"
     ELSE IF ~(ran \subseteq G!FlowNames) THEN "unknown-flow-ran"
@@ -152,10 +165,14 @@ ResJudgement(e) ==
          THEN "flow-did-not-run-although-its-filter-matches"
     ELSE IF \E f \in ran : WellFormed(C0.cfg, f) /\ UserVerdict(C0.cfg, f, "res", SelectSeq(e.seq, LAMBDA y : y.sid = "" /\ y.flow = f), e.outcome) # "ok"
          THEN "response-walk-does-not-follow-the-graph"
+    ELSE IF e.outcome = "ok" /\ \E q \in G!Conc : G!QuotaV(q, x) = "yes" /\ q \notin decran THEN "quota-releasing-system-flow-did-not-run"
+    ELSE IF \E q \in decran : q \notin G!Conc \/ G!QuotaV(q, x) = "no" THEN "quota-releasing-system-flow-ran-although-the-quota-filter-does-not-match"
     ELSE IF e.outcome = "ok" /\ e.acts # G!FlatActs(e.seq) THEN "recorded-actions-are-not-those-of-the-processor-executions"
     ELSE IF e.outcome = "ok" /\ \E i \in 1..Len(e.seq) : ~G!ProcActsOK(e, i) THEN "processor-handed-back-an-action-its-configuration-does-not-explain"
     ELSE IF e.outcome = "ok" /\ ~G!A!RespOK(e.acts, e.out) THEN "answer-is-not-the-combination-of-the-actions(C07)"
     ELSE IF e.outcome = "ok" /\ ~G!ResAnswerOK(e) THEN "answer-does-not-carry-what-the-executed-processors-are-configured-to-do"
+    ELSE IF ~G!StatusFilterOK(e) THEN "status-filter-processor-answer-contradicts-its-range"
+    ELSE IF ~G!RetryAccepted(e) THEN "retry-not-permitted-by-the-configured-attempts(C17)"
     ELSE "ok"
 
 TRes ==
@@ -169,9 +186,10 @@ TRes ==
            decq == {Ev.seq[i].q : i \in {j \in 1..Len(Ev.seq) : Ev.seq[j].sys = "dec"}}
        IN \/ G!CQ!Response(Ev.id)
           \/ ((Ev.outcome = "error" \/ ~(held \subseteq decq)) /\ UNCHANGED <<now, inflight, deadline, cqlast>>)
+    /\ G!RetryStep(Ev)
     /\ UNCHANGED <<lo, hi, charged, admitted, fwlast, cur, pos, seen>>
 
-TErr == Consume("err") /\ G!CQ!ProxyError(Ev.id) /\ UNCHANGED <<lo, hi, charged, admitted, fwlast, cur, pos, seen>>
+TErr == Consume("err") /\ G!CQ!ProxyError(Ev.id) /\ UNCHANGED <<lo, hi, charged, admitted, fwlast, cur, pos, seen, rvars>>
 
 TNext == TReset \/ TAdv \/ TBeginReq \/ TSkip \/ TQuota \/ TFinish \/ TRes \/ TErr
 
@@ -179,6 +197,7 @@ TraceSpec == TInit /\ [][TNext]_gvars
 
 FwBound == G!FW!Bound
 CqBound == G!CQ!Bounded
+RetryBound == G!RT!Bounded
 HWM == Mark(l)
 Post == Report
 ================================================================================
